@@ -48,7 +48,7 @@ theorem lift_basis_ok (h2 : (2 : F) ≠ 0) (sqrt : F → F) (B : EcBasis F) (E :
   obtain ⟨i1, i2⟩ := binv2 B.P.z E.C hPz hC
   have ex : B.P.x * ((B.P.z * E.C)⁻¹ * E.C) = x1 := by rw [i1, hP]; field_simp
   have ea : E.A * (B.P.z * (B.P.z * E.C)⁻¹) = a := by rw [i2, hA]; field_simp
-  simp only [lift_basis, ex, ea]
+  simp only [lift_basis, if_neg hPz, if_neg hC, ex, ea]
   refine ⟨trivial, trivial, trivial, trivial, trivial, ?_⟩
   intro hy1 hy1ne hy2 hd
   set y1 := recover_y sqrt x1 { A := a, C := 1, A24 := E.A24, is_A24_computed_and_normalized := E.is_A24_computed_and_normalized } with hy1def
@@ -105,7 +105,7 @@ theorem lift_point_ok (sqrt : F → F) (Q : EcPoint F) (E : EcCurve F) (a x : F)
     obtain ⟨i1, i2⟩ := binv2 Q.z E.C hz hC
     have ex : Q.x * ((Q.z * E.C)⁻¹ * E.C) = x := by rw [i1, hx]; field_simp
     have ea : E.A * (Q.z * (Q.z * E.C)⁻¹) = a := by rw [i2, hA]; field_simp
-    simp only [lift_point, decide_eq_false hz, Bool.false_eq_true, if_false, ex, ea, and_self]
+    simp only [lift_point, decide_eq_false hz, Bool.false_eq_true, if_false, if_neg hz, if_neg hC, ex, ea, and_self]
 
 /-! ## j-invariance under the Montgomery isomorphisms `x ↦ s (x - r)` -/
 
